@@ -84,13 +84,13 @@ def present(rec_full):
 
 
 def relate(kind, run_a, text_a, run_b, text_b, T=identity, eps=2, scope_all_a=False, with_bonds=False, with_hyd=False,
-           textcmp=False, epsc=1, meta=None, present=False):
+           textcmp=False, epsc=1, meta=None, present=False, sc_filter=None):
     rec_a, idx_a = observe.observe(run_a, text_a, with_input=False, all_groups=False)
     rec_b, idx_b = observe.observe(run_b, text_b, with_input=False, all_groups=False)
     remap = _remap_builder(idx_a, idx_b, T)
     rel = {"kind": kind, "ca": rec_a["confs"], "cb": rec_b["confs"], "A": _groups(rec_a, remap), "B": _groups(rec_b),
            "eps": eps, "epsc": epsc, "scope": [], "hasbonds": 0, "bondsA": [], "bondsB": [], "hashyd": 0, "hydA": [], "hydB": [],
-           "textcmp": 0, "textsame": 0, "presentA": [], "presentB": [], "meta": meta or {}}
+           "textcmp": 0, "textsame": 0, "presentA": [], "presentB": [], "scA": [], "scB": [], "meta": meta or {}}
     if scope_all_a:
         rel["scope"] = sorted(remap(i) for i, r in enumerate(idx_a.recs) if r is not None)
     if with_bonds:
@@ -112,6 +112,18 @@ def relate(kind, run_a, text_a, run_b, text_b, T=identity, eps=2, scope_all_a=Fa
         for tag, run, idx, rm in (("presentA", run_a, idx_a, remap), ("presentB", run_b, idx_b, None)):
             conf = run.mol.conformations[run.mol.conformation_names[0]]
             rel[tag] = sorted([(rm(idx.gid(g.atom)) if rm else idx.gid(g.atom)), g.type] for g in conf.groups)
+            # who is hydrogen-bonded to whom (side-chain determinants), for every group whether it titrates or not
+            sc = []
+            for g in conf.groups:
+                ps = []
+                for d in g.determinants["sidechain"]:
+                    pg = getattr(d.group, "group", d.group)
+                    pa = getattr(pg, "atom", None)
+                    if pa is not None and (sc_filter is None or sc_filter(g.type, getattr(pg, "type", "?"))):
+                        ps.append(rm(idx.gid(pa)) if rm else idx.gid(pa))
+                if ps:
+                    sc.append([(rm(idx.gid(g.atom)) if rm else idx.gid(g.atom)), sorted(ps)])
+            rel["sc" + tag[-1]] = sorted(sc)
     return rel
 
 
